@@ -491,6 +491,15 @@ def judge(items, info, chk, pc, nwarn):
     return fails
 
 
+def on_reject(chk, sigp, text, info, ra):
+    """documented gap of the lexer: `[[ ]]` inside a SET is a (loud) syntax error; every other shape must be accepted"""
+    import re
+    if re.search(r'\bSET \{[^{}]*\[\[', text):
+        return
+    e = ra.get('error') or {}
+    chk.violation(sigp + ' rejected', f"valid notation is rejected ({str(e.get('display'))[:100]}): {text}", {'kind': 'text', 'text': text})
+
+
 def jobs(tier, seed):
     return [f"chunk{i}" for i in range(NCHUNK)] + ['diff']
 
@@ -507,6 +516,7 @@ def run_job(prog, job, tier, seed):
             return chk.res
         i = int(job[5:])
         sh = shapes(tier)[i::NCHUNK]
+        judge.on_reject = on_reject
         bridge.run_text_shapes(chk, gen, runner, sh, judge, stats, symbolic={1000003: z3.BitVec('d', 128)})
     finally:
         runner.close()
